@@ -51,10 +51,12 @@ type caseT struct {
 	P2Faults []*faultT `json:"phase2_faults,omitempty"`
 }
 
-// faultT is one transient read failure: the Nth Get on a vmetadata key containing Key fails once
+// faultT is one transient read failure: the Nth Get on a vmetadata key containing Key (or, with List, the Nth
+// listing page under a prefix containing Key) fails once
 type faultT struct {
-	Key string `json:"key"`
-	Nth int    `json:"nth"`
+	Key  string `json:"key"`
+	Nth  int    `json:"nth"`
+	List bool   `json:"list,omitempty"`
 }
 
 var trees = map[string]hx.Tree{
@@ -108,6 +110,9 @@ func drawCase(t *rapid.T) caseT {
 		var f *faultT
 		if rapid.IntRange(0, 3).Draw(t, "p2fault") == 0 {
 			f = &faultT{Key: rapid.SampledFrom([]string{"diamond-done", "diamond-done", "diamond-running", "split-done", "split-running", "diamond-"}).Draw(t, "p2faultkey"), Nth: rapid.IntRange(1, 3).Draw(t, "p2faultnth")}
+			if rapid.IntRange(0, 3).Draw(t, "p2faultlist") == 0 {
+				f.Key, f.List = "/splits/", true
+			}
 		}
 		c.P2Faults = append(c.P2Faults, f)
 	}
@@ -308,6 +313,9 @@ func runCase(c caseT, forced []int) (runOutcome, error) {
 		var mf *memstore.Fault
 		if i < len(c.P2Faults) && c.P2Faults[i] != nil {
 			mf = &memstore.Fault{Op: memstore.OpGet, KeySub: c.P2Faults[i].Key, Nth: c.P2Faults[i].Nth, Times: 1}
+			if c.P2Faults[i].List {
+				mf.Op = memstore.OpKeysPrefix
+			}
 			v.VMeta.AddFault(mf)
 		}
 		pr := p2res{kind: kind, name: name, terminalBefore: terminal(), splitADone: splitDone("split-A")}
@@ -652,5 +660,25 @@ func TestRegressCommitReadFailureSeveralPages(t *testing.T) {
 			t.Fatalf("%v (hung=%v panicked=%v)", err, hung, panicked)
 		}
 		stats.Case("pinned read failure "+out.sig, true, func() interface{} { return c })
+	}
+}
+
+// TestRegressCommitListingFailure: one page of the commit's split listing fails. The commit may fail, but it
+// must not go ahead with the splits listed so far (the stage merging running/done keys dropped the scan error).
+func TestRegressCommitListingFailure(t *testing.T) {
+	for i := 0; i < 24; i++ {
+		c := caseT{Actors: []string{"splitB", "splitE", "splitA1"}, Choices: []int{5, 1, 5}, Phase2: []string{"commit", "commit"}, Batch: []int{0, 1, 2, 3}[i%4],
+			P2Faults: []*faultT{{Key: "/splits/", List: true, Nth: 1 + (i/4)%6}, nil}}
+		hx.Journal(c)
+		var out runOutcome
+		err, hung, panicked := hx.Guard(20*time.Second, func() error {
+			var e error
+			out, e = runCase(c, nil)
+			return e
+		})
+		if hung || panicked || err != nil {
+			t.Fatalf("%v (hung=%v panicked=%v)", err, hung, panicked)
+		}
+		stats.Case("pinned listing failure "+out.sig, true, func() interface{} { return c })
 	}
 }
